@@ -85,7 +85,7 @@ struct World {
 impl World {
     fn new(rt: &tokio::runtime::Runtime, scn: &Scenario) -> World {
         let issuance: Vec<(String, u64)> = (0..(scn.chain + 6)).map(|_| ("k1".to_string(), 1_000_000)).collect();
-        let lw = rt.block_on(LedgerWorld::new(scn.g, scn.hb, 3, &issuance));
+        let mut lw = rt.block_on(LedgerWorld::new(scn.g, scn.hb, 3, &issuance));
         let creator = lw.keys["c"];
         let mut builder = Node::new(creator, lw.cfg());
         let mut blocks = vec![lw.genesis.clone()];
@@ -93,11 +93,14 @@ impl World {
         for i in 1..scn.chain {
             let parent = blocks[i - 1].clone();
             let ts = parent.timestamp + 2 * scn.hb;
+            // with a short retention window the genesis outputs are rebroadcast before they would be used:
+            // there every payment spends the previous one (k1 pays itself)
+            let short = scn.g < 10 && i > 1;
             let d = TxDesc {
                 id: format!("t{}", i),
                 signer: "k1".into(),
-                ins: vec![format!("g{}", i)],
-                outs: vec![("k2".into(), 0)],
+                ins: vec![if short { format!("t{}.0", i - 1) } else { format!("g{}", i) }],
+                outs: vec![(if scn.g < 10 { "k1".into() } else { "k2".into() }, 0)],
                 path: vec![],
                 edit: None,
                 data: None,
@@ -110,6 +113,11 @@ impl World {
                 .block_on(builder.create_block(&creator, spec_for(parent.hash, ts, vec![tx], Some(gt))))
                 .expect("honest block");
             rt.block_on(builder.force_wind(b.clone()));
+            if let Some(t) = b.transactions.iter().find(|t| t.transaction_type == TransactionType::Normal) {
+                if let Some(o) = t.to.first() {
+                    lw.register(format!("t{}.0", i), o, b.id);
+                }
+            }
             blocks.push(b);
         }
         World { lw, blocks, creator }
